@@ -1,11 +1,11 @@
 """C13 driver: generator of BF2 layouts (section descriptors -> items with symbolic extents), printer of real BF2
 text, attribution of returned payload bytes to their source lines, projection of the results of the real
-Bf3File.bf2_import / bf2_unpack_payload / bf2_convert_payload to trace events for spec/Trace_Bf2Import.tla.
+Bf3File.bf2_import re, / bf2_unpack_payload / bf2_convert_payload to trace events for spec/Trace_Bf2Import.tla.
 
 Nothing here decides what the import should produce: the expected components / rejections are computed by TLC from
 the `items` of the event.  The only knowledge used is (1) how a layout is written as text (the concretisation) and
 (2) the inverse of the content function payload(line id, offset) (the attribution)."""
-import io, hashlib
+import io, os, re, hashlib
 
 from .common import repo_on_path, MachineryError
 
@@ -24,6 +24,25 @@ KNOWN_IDS = list(range(0x01, 0xC4))          # listed ids and the holes between 
 
 def chars(s):
     return [ord(c) for c in s]
+
+
+def pinned_ids():
+    """ids of the pinned list spec/HwcidNames.tla"""
+    txt = open(os.path.join(os.path.dirname(os.path.dirname(os.path.abspath(__file__))), "spec", "HwcidNames.tla")).read()
+    return {int(m) for m in re.findall(r"^\s*<<(\d+), <<", txt, re.M)}
+
+
+_XN = None
+
+
+def extra_names():
+    """names the library has for ids that are NOT in the pinned list (an upstream addition): the specification renders these
+    ids with the library's name - the documented ids are judged against the pinned list, additions do not raise an alarm"""
+    global _XN
+    if _XN is None:
+        pin = pinned_ids()
+        _XN = [[int(i), chars(n)] for i, n in sorted(REV_HWCID_MAP.items()) if int(i) not in pin]
+    return _XN
 
 
 def run_names(tid):
@@ -517,7 +536,7 @@ def run_import(items, L, enforce, r, tid):
         pr.add(it)
     text = pr.text()
     ev = {"tid": tid, "op": "import", "items": [public(it) for it in items], "enforce": 1 if enforce else 0,
-          "kind": "ok", "cls": "", "mro": [], "why": "", "comps": [], "comments": [], "bad": 0, "_text": text}
+          "kind": "ok", "cls": "", "mro": [], "why": "", "comps": [], "comments": [], "bad": 0, "_text": text, "xn": extra_names()}
     try:
         f = Bf3File.bf2_import(io.StringIO(text)) if enforce else Bf3File.bf2_import(io.StringIO(text), False)
     except Exception as e:                                  # noqa: BLE001 -- the class is part of the record
